@@ -23,6 +23,8 @@
 -/
 import Pakhi.Lemmas.Control
 import Pakhi.Lemmas.FrameInv
+import Pakhi.Lemmas.Unflatten
+import Pakhi.Lemmas.ParseWF
 
 namespace Pakhi
 namespace C02
@@ -140,6 +142,13 @@ theorem whole_program (tree : SList) (em : Meta) (hw : tree.WF) (hc : tree.Close
     (hrun : runLoop (tree.flatten ++ [Stmt.eos em]) .never F 0 (tree.flatten ++ [Stmt.eos em]) (St.init w) = r) (hr : r ≠ .fuel) :
     sTop (tree.flatten ++ [Stmt.eos em]) F tree em (St.init w) = r :=
   run_refines tree em hw hc hp (St.init w) (stOK_init _ _ w) F r hrun hr
+
+/-- **from tokens to meaning**: whatever the parser returns, if `unflatten` recognises it (which the check computes for
+    every program it runs), a collection-free run that ends is the structured meaning of the recovered tree -/
+theorem parsed_program_is_its_tree (ctx : PCtx) (pf : Nat) (toks : List Token) (prog : List Stmt) (hparse : parse ctx pf toks = .ok prog)
+    (tree : SList) (em : Meta) (hu : unflatten prog = some (tree, em)) (w : World) (F : Nat) (r : Res St)
+    (hrun : runLoop prog .never F 0 prog (St.init w) = r) (hr : r ≠ .fuel) : sTop prog F tree em (St.init w) = r :=
+  recognised_program_refines prog tree em hu (parse_wf ctx pf toks prog hparse) w F r hrun hr
 
 end C02
 end Pakhi
